@@ -544,3 +544,20 @@ def sched_clean_after_failures(req):
     if scheduler.get_active_task() is not None:
         return fail("active task not None after the outermost call returned")
     return None
+
+
+def _load_all():
+    import importlib
+    for m in ("sc_core", "sc_tools", "sc_misc"):
+        try:
+            importlib.import_module(m)
+        except ModuleNotFoundError as e:
+            if e.name != m:
+                raise
+
+
+def all_for_property(pid):
+    return [f for fns, ps, f in REG if pid in ps]
+
+
+_load_all()
